@@ -55,6 +55,10 @@ func buildCases(shapes []shape, thorough bool) (cases []caseSpec, notApplicable,
 		if sh.Family == "hist" { // call history on one cached api.Function
 			for _, e := range engines {
 				for _, seq := range histSequences(thorough) {
+					if histNotApplicable(e, seq) {
+						notApplicable++
+						continue
+					}
 					c, m := histCaseFields(seq)
 					cases = append(cases, caseSpec{Shape: sh.ID, Engine: e, Cause: c, Moment: m, Hist: seq})
 				}
@@ -141,6 +145,8 @@ func makePlan(thorough bool) *plan {
 		sh := p.byID[c.Shape]
 		// Scheduling hints only (no influence on verdicts).
 		switch {
+		case c.Hist != "" && c.Engine == "compiler" && strings.Contains(c.Hist, "E-overflow"):
+			p.phases["deep"] = append(p.phases["deep"], i) // 400 MB call stack: few at a time
 		case c.Hist != "":
 			p.phases["hist"] = append(p.phases["hist"], i)
 		case c.Conc != "":
@@ -459,6 +465,7 @@ func main() {
 		Rule:    "one evaluation = one (shape, engine, cause, moment) case executed on the real runtime in a child process, or one program analysed structurally; non-trivial = executed dynamic cases in which the cause arrives while the guest is inside its cycle (moment after iteration 1 or 3; counted as results come back from the children; how many of them fired exactly at the chosen tick with the close observed is reported separately); all cases are distinct by construction",
 		Samples: samples.List(), Exhaustive: true, Outcomes: outcomes.Map(), Bounds: bounds, Extra: extra,
 	}, []string{
+		"call histories: after the context of a call that has already ended (trap, host panic, stack exhaustion, normal return) is cancelled or expires, the module is polled for 300 ms and must stay open - a 'nothing happens' oracle with a finite settle horizon (a stale watcher goroutine acts within microseconds)",
 		"a hang verdict needs >= 21 s without return after the cause was in place and IsClosed() observed (a conforming engine needs one iteration); it is raised by the child's own timer, or by the supervisor's 60 s fallback if the runtime is wedged",
 		"the 'deadline' cause uses a real context.WithDeadline 1 s ahead; the chosen tick blocks until the watcher closed the module, so the arrival iteration is exact unless the first 4 iterations take longer than 1 s (then the case is still judged, noted early-deadline)",
 		"stack exhaustion is accepted instead of an exit error only for shapes whose cycle contains a call or tail-call edge (documented fallbacks turn tail calls into calls)",
